@@ -41,8 +41,14 @@ class Trace:
                     for vj in act[2]:
                         self.inputs.append(dict(eid=eid, src=act[1], val=val_from_json(vj), md=[], step=step, t=o["now"]))
                         eid += 1
+                elif act[0] == "mix":
+                    for sa in act[2]:
+                        if sa[0] == "emit":
+                            self.inputs.append(dict(eid=eid, src=sa[1], val=val_from_json(sa[2]),
+                                                    md=[tuple(m) for m in sa[3]], step=step, t=o["now"]))
+                            eid += 1
                 elif act[0] in ("ack", "ackfail"):
-                    if outstanding:
+                    if outstanding and "mixacks" not in o:      # (older recorded traces: replicate the FIFO)
                         d = outstanding.pop(0)
                         d["acked_step"] = step
                 elif act[0] == "task":
@@ -51,11 +57,23 @@ class Trace:
             for x in o.get("started", []):
                 running.append(x)
                 self.started.append((step, x))
+            for x in o.get("mixtasks", []):
+                if x is not None and x in running:
+                    running.remove(x)
+                    self.task_done.append((step, x))
             for (t, x, m) in o["deliv"]:
                 d = dict(t=t, val=x, md=[tuple(i) for i in m], step=step, acked_step=step if self.sync else None)
                 self.deliv.append(d)
                 if not self.sync:
                     outstanding.append(d)
+            for didx in o.get("mixacks", []):
+                if 0 <= didx < len(self.deliv):
+                    d = self.deliv[didx]
+                    d["acked_step"] = step
+                    for j, d2 in enumerate(outstanding):
+                        if d2 is d:
+                            del outstanding[j]
+                            break
             for e in o["done"]:
                 self.done_step[e] = step
             for e in o["failed"]:
@@ -202,6 +220,11 @@ def check_c03(case, obs):
                 pend = sum(1 for i in mine if i["step"] <= step and T.done_step.get(i["eid"], 10 ** 9) > step)
                 if pend > 1:
                     disciplined = False
+            # an emit issued before the previous one of the same input had completed (by the end of an earlier
+            # step) is a concurrent producer
+            for a, b in zip(mine, mine[1:]):
+                if T.done_step.get(a["eid"], 10 ** 9) >= b["step"]:
+                    disciplined = False
             for step in range(T.nsteps):
                 acc = sum(1 for i in mine if T.done_step.get(i["eid"], 10 ** 9) <= step)
                 paired = sum(1 for d in T.deliv if d["step"] <= step)
@@ -259,7 +282,7 @@ def check_refs(case, obs, want=("C04", "C05")):
                 if not delivered_by:
                     dropped = False
                     if k == "latest":
-                        later = [j for j in T.inputs if j["step"] > inp["step"] and j["step"] <= fs]
+                        later = [j for j in T.inputs if j["eid"] > inp["eid"] and j["step"] <= fs]
                         dropped = bool(later)
                     if k == "timed_window_unique":
                         dropped = True      # may be a dropped/replaced duplicate; window content is checked by C02
